@@ -21,6 +21,28 @@ CLAIMED = {
         "technique": "forward data+control dependency analysis over typed HIR (operand relevance, strong kills, read-before-write)",
         "design_ref": "DESIGN.md §3 R-DEPEND, §4 C08",
     },
+    "C11": {
+        "text": "Decides the inverse-pair structure of the batch encoder: encode scatters and decode gathers through "
+                "the same index-map field with the loop variable as index; the tail beyond the input is zero-filled "
+                "through the same map; encode ends with the inverse and decode begins with the forward non-lazy "
+                "negacyclic transform of the same tables; coefficient encoding reduces modulo t; and every index "
+                "guarded by a comparison with the operand length (Galois permutation) is implied in-bounds.",
+        "note": _TB + "Not decided: that batching is a ring isomorphism, the slot order, the rotation correspondence "
+                "(facts about roots of unity and the index map's contents).",
+        "technique": "structural pair agreement on typed HIR (scatter/gather, transform pairs) + guard/use contradiction",
+        "design_ref": "DESIGN.md §3 R-CONTRA, §4 C11",
+    },
+    "C12": {
+        "text": "Decides, for the five CKKS encoding entry points: every float->integer cast selected by a magnitude "
+                "tier guard depends (flow-sensitively) only on inputs the guard depends on; no wrapping arithmetic on an "
+                "unbounded signed/floating input feeds a modular reduction; every entry point refuses, on every "
+                "normally-returning path, through a sign test of the scale and through branches computed from the "
+                "scale and from the value(s) against the modulus size.",
+        "note": _TB + "Not decided: rounding, double-precision error of the embedding transform, FFT correctness, "
+                "slot order, consistency of RNS components as values.",
+        "technique": "flow-sensitive dependency comparison of guards and casts + guard dominance with scalar operands",
+        "design_ref": "DESIGN.md §3 R-GUARDDEP/R-CONTRA/R-GUARD, §4 C12",
+    },
     "C15": {
         "text": "Decides, for every call site in the serialization API's call tree (all functions of the local "
                 "*Serializable* trait impls and inherent serialize*/deserialize* functions plus their callees, "
@@ -42,6 +64,17 @@ CLAIMED = {
                 "arithmetic value of the recorded scale.",
         "technique": "scheme-projected guard-dominance dataflow over typed HIR with callee summaries",
         "design_ref": "DESIGN.md §3 R-GUARD, §4 C03",
+    },
+    "C04": {
+        "text": "Decides the ordering clause of the automorphism application: symbolic buffer contents through "
+                "apply_galois_inplace show that, on both representation arms, the key switch receives G(c1) while "
+                "poly(0) holds G(c0) and poly(1) is zero; rotate_internal applies the element whose key it tested and "
+                "composes NAF components on the same ciphertext and key set; conjugation uses step 0; the Galois "
+                "permutation's length-guarded index is implied in-bounds by its guard.",
+        "note": _TB + "Not decided: that X -> X^g permutes slots as documented, generator/NAF arithmetic, key-switch "
+                "noise, plaintext preservation under the new key.",
+        "technique": "symbolic reaching-definitions over structured HIR + structural pair agreement + guard/use contradiction",
+        "design_ref": "DESIGN.md §3 R-CONTRA, §4 C04",
     },
     "C05": {
         "text": "Decides the termination clause outright for the loop shape involved: every while/loop in "
@@ -83,10 +116,10 @@ CLAIMED = {
 
 _NYB = "rules designed (DESIGN.md §4) but not built yet in this tree; not claimed until the check exists"
 NOT_APPLICABLE = {
-    "C01": _NYB, "C02": _NYB, "C04": _NYB,
+    "C01": _NYB, "C02": _NYB,
     "C07": "every clause compares a reported integer with exact big-integer arithmetic on runtime phase/noise "
            "values; no necessary condition is visible in the shape of the code (DESIGN.md §5)",
-    "C09": _NYB, "C10": _NYB, "C11": _NYB, "C12": _NYB, "C13": _NYB, "C14": _NYB,
+    "C09": _NYB, "C10": _NYB, "C13": _NYB, "C14": _NYB,
     "C16": _NYB, "C18": _NYB,
     "C19": "every clause is about where coefficients land as a function of runtime indices and counts; static "
            "shape rules do not bound them (DESIGN.md §5)",
